@@ -300,7 +300,7 @@ class ComposedNode(ConfigNode):
                 if not self._children and other.ayns.has_priority_over(self, if_equal=True):
                     removed.add(path)
                     other.ayns._require_all_new(path, f'note: the entire config tree under {path!r} has been removed due to node merging with a !del or !clear node', exceptions=removed)
-                    ret = other._replace_other(self, allow_promotions=True)
+                    ret = other._replace_other(self, allow_promotions=True, other_is_newer=False)
                     return ret
 
             _this_path = NodePath.get_str_path(path)
